@@ -25,13 +25,20 @@ def _fresh_env(hashseed):
     return e
 
 
-def fresh_digests(prop, seed, lo, hi, hashseed):
-    """Digests of runs lo..hi computed in a fresh interpreter under another PYTHONHASHSEED."""
+def fresh_digests_start(prop, seed, lo, hi, hashseed):
     cmd = [sys.executable, "-m", "tlsim", "digest", prop, str(seed), str(lo), str(hi)]
-    p = subprocess.run(cmd, cwd=core.VERIF_DIR, env=_fresh_env(hashseed), capture_output=True, text=True, timeout=600)
+    return subprocess.Popen(cmd, cwd=core.VERIF_DIR, env=_fresh_env(hashseed), stdout=subprocess.PIPE, stderr=subprocess.PIPE, text=True)
+
+
+def fresh_digests_wait(p):
+    try:
+        out, err = p.communicate(timeout=900)
+    except subprocess.TimeoutExpired:
+        p.kill()
+        raise HarnessError("digest subprocess timed out")
     if p.returncode != 0:
-        raise HarnessError(f"digest subprocess failed: {p.stderr[-2000:]}")
-    return json.loads(p.stdout.strip().splitlines()[-1])
+        raise HarnessError(f"digest subprocess failed: {err[-2000:]}")
+    return json.loads(out.strip().splitlines()[-1])
 
 
 def _minimise_job(args):
@@ -45,9 +52,16 @@ def _digests_job(args):
 
 
 def determinism_check(mod, seed, n, hashseed=12345):
-    # the parent never executes library code itself (children are forked from a clean state)
-    a = core.in_child(_digests_job, (mod, seed, 0, n), 900)
-    b = fresh_digests(mod.PROP, seed, 0, n, hashseed)
+    """Runs 0..n-1 twice: in a forked child of the driver, and (concurrently) in a fresh interpreter
+    under another PYTHONHASHSEED; compares the event-log digests and verdicts run by run.
+    The parent never executes library code itself (children are forked from a clean state)."""
+    p = fresh_digests_start(mod.PROP, seed, 0, n, hashseed)
+    try:
+        a = core.in_child(_digests_job, (mod, seed, 0, n), 900)
+    except BaseException:
+        p.kill()
+        raise
+    b = fresh_digests_wait(p)
     bad = [i for i in range(n) if a[i] != b[i]]
     return {"runs_compared": n, "mismatches": len(bad), "first_mismatch": bad[:3], "other_pythonhashseed": hashseed}
 
